@@ -390,8 +390,9 @@ def arr_setitem(it, a, idx, v):
         w = ctx.fresh_fn("wpos", INT, INT)
         t = z3.Int("t!w")
         n = s.len
-        ctx.assumptions.append(z3.ForAll([t], z3.Implies(in_range(t, pos.len), w(wrap_index(pos.at(t), n)) >= t),
-                                         patterns=[pos.at(t)]))
+        from .core import forall
+        ctx.assumptions.append(forall([t], z3.Implies(in_range(t, pos.len), w(wrap_index(pos.at(t), n)) >= t),
+                                      patterns=[pos.at(t)]))
         jj = z3.Int("j!w")
         ctx.assumptions.append(z3.ForAll([jj], z3.Or(w(jj) == -1, z3.And(in_range(w(jj), pos.len),
                                                                       wrap_index(pos.at(w(jj)), n) == jj)), patterns=[w(jj)]))
